@@ -49,17 +49,23 @@ def case_strategy():
     return st.fixed_dictionaries({'identity': ident, 'name_id': nid, 'class_ref': st.sampled_from(CLASSES), 'session': st.one_of(st.none(), st.integers(600, 90000)),
                                   'sign_response': st.booleans(), 'sign_assertion': st.booleans(), 'encrypt': st.booleans(), 'sign_alg': st.integers(0, 4), 'digest_alg': st.integers(0, 4),
                                   'opts': st.integers(0, 7), 'binding': st.sampled_from(['post', 'post', 'redirect', 'soap']), 'irt': st.sampled_from(['id-req-1', '_a-b.c', 'id-0000000001']),
-                                  'relay': st.sampled_from(['', '/came/from?x=1&y=2'])})
+                                  'relay': st.sampled_from(['', '/came/from?x=1&y=2']),
+                                  # the SP's documented clock-skew allowance, and how the IdP gets the subject identifier: handed over ready-made, or built by its
+                                  # identifier store from a NameIDPolicy (long-lived IdP, few users, several formats)
+                                  'slack': st.sampled_from([None, None, 0, 180]),
+                                  'nid_policy': st.one_of(st.none(), st.none(), st.tuples(st.sampled_from(['user-a', 'user-b']), st.integers(0, 2)).map(list))})
 
 
-def pair(opts):
-    if opts not in _pairs:
+def pair(opts, slack=None):
+    key = (opts, slack)
+    if key not in _pairs:
         wrs, was, wors = bool(opts & 1), bool(opts & 2), bool(opts & 4)
-        sp, idp, spmd, idpmd = world.pair({'want_response_signed': wrs, 'want_assertions_signed': was, 'want_assertions_or_response_signed': wors,
+        extra = {} if slack is None else {'accepted_time_diff': slack}
+        sp, idp, spmd, idpmd = world.pair({'want_response_signed': wrs, 'want_assertions_signed': was, 'want_assertions_or_response_signed': wors, **extra,
                                            'acs': [(spside.ACS_POST, world.POST), (spside.ACS_REDIRECT, world.REDIRECT), ('https://sp.verif.example/acs/soap', world.SOAP)]}, None)
         clock.install()
-        _pairs[opts] = (sp, idp)
-    return _pairs[opts]
+        _pairs[key] = (sp, idp)
+    return _pairs[key]
 
 
 def norm(v):
@@ -121,7 +127,7 @@ def run(case):
     if wors and not (sr or sa):
         sr = True
     binding = case['binding']
-    sp, idp = pair(case['opts'])
+    sp, idp = pair(case['opts'], case.get('slack'))
     clock.set_now(NOW)
     identity = dict((k, list(v)) for k, v in case['identity'].items())
     n = case['name_id']
@@ -132,6 +138,12 @@ def run(case):
     kw = dict(in_response_to=case['irt'], destination=dest, sp_entity_id=spside.SP, name_id=name_id,
               authn={'class_ref': case['class_ref'], 'authn_auth': 'https://idp.verif.example/login'},
               sign_response=sr, sign_assertion=sa, encrypt_assertion=enc, sign_alg=sig_algs[case['sign_alg'] % len(sig_algs)], digest_alg=dig_algs[case['digest_alg'] % len(dig_algs)])
+    pol = case.get('nid_policy')
+    POLICY_FORMATS = [saml.NAMEID_FORMAT_PERSISTENT, saml.NAMEID_FORMAT_TRANSIENT, saml.NAMEID_FORMAT_PERSISTENT]     # (emailAddress needs a configured domain)
+    if pol:
+        del kw['name_id']
+        kw['userid'] = pol[0]
+        kw['name_id_policy'] = samlp.NameIDPolicy(format=POLICY_FORMATS[pol[1]], allow_create='true', sp_name_qualifier=spside.SP)
     if case['session'] is not None:
         kw['session_not_on_or_after'] = build.ts(NOW + case['session'])
     try:
@@ -166,7 +178,12 @@ def run(case):
         diff = dict((k, (exp_ava.get(k), got_ava.get(k))) for k in set(exp_ava) | set(got_ava) if exp_ava.get(k) != got_ava.get(k))
         raise Violation('attributes-differ', 'asserted vs read (expected, got): %r' % (dict(list(diff.items())[:3]),))
     g = got.name_id
-    if g is None or norm(g.text or '') != norm(n['text']) or g.format != n['format'] or (g.sp_name_qualifier or None) != (spside.SP if n['spq'] else None) \
+    if pol:
+        # the identifier is the store's; what was asked for is its format and namespace
+        if g is None or not g.text or g.format != POLICY_FORMATS[pol[1]] or (g.sp_name_qualifier or spside.SP) != spside.SP:
+            raise Violation('name-id-differs', 'NameIDPolicy asked for format %r in the namespace of %r for %r, the SP read %r'
+                            % (POLICY_FORMATS[pol[1]], spside.SP, pol[0], None if g is None else (g.text, g.format, g.sp_name_qualifier)))
+    elif g is None or norm(g.text or '') != norm(n['text']) or g.format != n['format'] or (g.sp_name_qualifier or None) != (spside.SP if n['spq'] else None) \
             or (g.name_qualifier or None) != (spside.IDP if n['nq'] else None):
         raise Violation('name-id-differs', 'asserted NameID %r read as %r' % ((n['text'], n['format']), None if g is None else (g.text, g.format, g.sp_name_qualifier, g.name_qualifier)))
     si = got.session_info()
@@ -180,7 +197,7 @@ def run(case):
     # ---- values never change the structure
     if not enc:
         benign = dict((k, ['v%d' % i for i in range(len(v))]) for k, v in identity.items())
-        kw2 = dict(kw, name_id=saml.NameID(format=n['format'], text='subject', sp_name_qualifier=name_id.sp_name_qualifier, name_qualifier=name_id.name_qualifier))
+        kw2 = dict(kw) if pol else dict(kw, name_id=saml.NameID(format=n['format'], text='subject', sp_name_qualifier=name_id.sp_name_qualifier, name_qualifier=name_id.name_qualifier))
         ref = str(idp.create_authn_response(benign, **kw2))
         if skeleton(xml) != skeleton(ref):
             raise Violation('structure-changed-by-values', 'element skeleton of the response differs from the same response with benign values')
